@@ -451,6 +451,12 @@ impl FlightService for QeFlightService {
     }
 }
 
+/// The Flight service over `state`, for in-process calls by a simulator.
+#[cfg(qe_verif)]
+pub(crate) fn verif_service(state: Arc<NodeState>) -> QeFlightService {
+    QeFlightService::new(state)
+}
+
 /// Run the Flight server on `listener` until `shutdown` flips true. Spawned by
 /// `server::spawn` next to the HTTP accept loop; both share the same signal.
 pub(crate) fn spawn_flight_server(
